@@ -561,3 +561,64 @@ def ob_lookalike_names(a: int, b: int) -> bool:
 
 OBLIGATIONS.append(Ob('lookalike_names', ob_lookalike_names, ['0 <= a <= 1', '0 <= b <= 1'], timeout=tier(100, 300), data='two int elements 0..1',
                       selectors='outer variables named row_data / row_items / row_value / row_zzz (prefix=row) and sequence-data / sequence-zzz'))
+
+
+# ---------------------------------------------------------------- wave 4
+T_REC_DEFAULTS = HTML('<dtml-var x>:<dtml-if depth><dtml-let x="\'shadow\'" depth="depth - 1"><dtml-var me></dtml-let></dtml-if>', x='mine')
+T_REC_DEFAULTS.cook()
+T_REC_P = HTML('[<dtml-var x><dtml-if depth><dtml-with w mapping><dtml-var q></dtml-with></dtml-if>]', x='P')
+T_REC_Q = HTML('<dtml-let depth="0"><dtml-var p></dtml-let>')
+T_REC_P.cook()
+T_REC_Q.cook()
+
+
+def ob_recursive_defaults(depth: int, viakw: bool) -> bool:
+    """a template invoked by name while it is ALREADY being rendered further up still lays its own defaults on top of the caller's
+    namespace: bindings made between the two invocations (let, with, keywords) do not outrank them"""
+    d = 0 if depth <= 0 else 1 if depth == 1 else 2
+    out = T_REC_DEFAULTS(me=T_REC_DEFAULTS, depth=d)
+    if out != 'mine:' * (d + 1):
+        return False
+    # indirect recursion P -> Q -> P with a with-binding of x in between
+    out2 = T_REC_P(p=T_REC_P, q=T_REC_Q, depth=1, w={'x': 'W', 'q': T_REC_Q, 'p': T_REC_P})
+    return out2 == '[P[P]]'
+
+
+OBLIGATIONS.append(Ob('recursive_template_defaults', ob_recursive_defaults, ['0 <= depth <= 2'], timeout=tier(100, 300), data='recursion depth 0..2',
+                      selectors='template with a construction-time default invoked by name from inside its own rendering (directly through let, indirectly through a second template and a with block)'))
+
+
+class Counter:
+    def __init__(self):
+        self.n = 0
+
+    def m(self):
+        self.n += 1
+        return self.n
+
+    def plus(self, k):
+        return self.n + k
+
+
+T_METH = {
+    'client': cooked('<dtml-var m>,<dtml-var m>,<dtml-var "m()">,<dtml-var "plus(10)">'),
+    'with': cooked('<dtml-with o><dtml-var m>,<dtml-var m>,<dtml-var "m()">,<dtml-var "plus(10)"></dtml-with>'),
+    'in': cooked('<dtml-in seq><dtml-var m>,<dtml-var m>,<dtml-var "m()">,<dtml-var "plus(10)"></dtml-in>'),
+}
+
+
+def ob_method_by_name_and_expr(site: int) -> bool:
+    """a method of a client object / with object / in item: every by-name reference calls it afresh, an expression afterwards still gets
+    the bound method itself (uncalled) - nothing is remembered from the by-name call"""
+    o = Counter()
+    if site == 0:
+        out = T_METH['client'](o)
+    elif site == 1:
+        out = T_METH['with'](o=o)
+    else:
+        out = T_METH['in'](seq=[o])
+    return out == '1,2,3,13'
+
+
+OBLIGATIONS.append(Ob('method_by_name_then_expr', ob_method_by_name_and_expr, ['0 <= site <= 2'], timeout=tier(100, 300), data='-',
+                      selectors='counter method of a client object / with object / in item referenced by name twice, then called from an expression'))
